@@ -39,7 +39,10 @@ class Stack(ElementBase):
         if axis not in (0, 1, 2):
             raise ValueError(f"Invalid axis: {axis}; use 0, 1 or 2")
 
-        if index < 0:
+        grid = self.shapes[0].grid
+        n_slices = (len(grid[0]), len(grid), len(self.shapes))[axis]
+
+        if index < 0 or index >= n_slices:
             raise ValueError(f"Invalid slice index: {index}; use 0...(number of slices - 1)")
 
         if axis == 2:
